@@ -4,7 +4,8 @@
 //! the number of distinct states within the same bound and on the verdict.  This is the guard
 //! against a bug in the engine's own expansion / deduplication code.  The wrapper state
 //! carries the spec state behind an `Arc`, hashes and compares by the spec's canonical key, and
-//! records whether the transition that produced it violated the oracle.
+//! records whether the transition that produced it violated the oracle (that flag is part of the
+//! state's identity, so a violating transition into a known state is still a new, checked state).
 
 use crate::explore::Spec;
 use stateright::{Checker, Model, Property};
@@ -29,13 +30,17 @@ impl<S> std::fmt::Debug for SrState<S> {
 }
 impl<S> PartialEq for SrState<S> {
     fn eq(&self, o: &Self) -> bool {
-        self.key == o.key
+        // `bad` belongs to the identity: a violating transition into an already visited state
+        // (e.g. a failed restore that leaves the estimator unchanged) must not be deduplicated
+        // away before stateright evaluates the property on it
+        self.key == o.key && self.bad == o.bad
     }
 }
 impl<S> Eq for SrState<S> {}
 impl<S> Hash for SrState<S> {
     fn hash<H: Hasher>(&self, h: &mut H) {
-        self.key.hash(h)
+        self.key.hash(h);
+        self.bad.hash(h)
     }
 }
 
